@@ -448,7 +448,10 @@ def _main(argv):
         wall_s=round(wall, 2), violations=len(violations),
     )
     os.makedirs(os.path.join(ROOT, "evidence"), exist_ok=True)
-    with open(os.path.join(ROOT, "evidence", f"{prop}.json"), "w") as f:
+    # a run under bin/mutate-check (the tree is patched) must not overwrite the evidence of the real tree
+    ev_path = (os.path.join(ROOT, "replays", f"evidence-mutated-{prop}.json") if os.environ.get("VERIF_HAVE_REPO_LOCK")
+               else os.path.join(ROOT, "evidence", f"{prop}.json"))
+    with open(ev_path, "w") as f:
         json.dump(ev, f, indent=1)
     print(f"[{prop} {tier}] obligations {lean['discharged']}/{lean['obligations']} axioms={lean['axioms']} "
           f"cases={agg_all['cases']} nontrivial={agg_all['nontrivial']} disagreements={len(agg_all['dis'])} "
